@@ -144,4 +144,4 @@ Proof. intros W Hb Hg. unfold dup. rewrite Hb. simpl.
 Theorem dup_restore h b tb : wf h -> getT h b = Some tb -> t_grad tb = false ->
   exists h1 g h2, dup h b = Some (h1, g) /\ restore h1 g = Some h2 /\ same_tables h (free_placeholders h2 g).
 Proof. intros W Hb Hg. destruct (dup_exists h b tb W Hb Hg) as (h1 & g & D).
-  destruct (dup_restore_given h b h1 g W D) as (h2 & R & S). exists h1, g, h2. auto. Qed.
+  destruct (dup_restore_given h b h1 g W D) as (h2 & R & S & _). exists h1, g, h2. auto. Qed.
